@@ -581,17 +581,29 @@ def _extract_const_rule(model, mapper, precs):
             n_bare += 1
             continue
         n_wrapped += 1
-        for _, pol, v in ps.conds:
-            if not pol or not isinstance(v, tuple):
+        from .summary import facts_of
+        for _, pol0, v0 in ps.conds:
+            if not isinstance(v0, tuple):
                 continue
-            for sub in _subterms(v):
-                if sub[0] == "compare" and sub[2] == ("param", "enclosing_prec") \
-                        and sub[1] in (("Gt",), ("GtE",)):
-                    thr = (_prec_value(sub[3][0], precs),
-                           ">" if sub[1] == ("Gt",) else ">=")
-                if sub[0] == "compare" and sub[1] == ("In",) \
-                        and sub[2][0] == "const" and isinstance(sub[2][1], str):
-                    signs.add(sub[2][1])
+            for v, pol in facts_of(v0, pol0):
+                if not isinstance(v, tuple):
+                    continue
+                if not pol:
+                    # (enclosing <= P) is False  ==  enclosing > P
+                    if v[0] == "compare" and v[2] == ("param", "enclosing_prec") \
+                            and v[1] in (("LtE",), ("Lt",)):
+                        thr = (_prec_value(v[3][0], precs),
+                               ">" if v[1] == ("LtE",) else ">=")
+                    continue
+                for sub in _subterms(v):
+                    if sub[0] == "compare" and sub[2] == ("param",
+                                                          "enclosing_prec") \
+                            and sub[1] in (("Gt",), ("GtE",)):
+                        thr = (_prec_value(sub[3][0], precs),
+                               ">" if sub[1] == ("Gt",) else ">=")
+                    if sub[0] == "compare" and sub[1] == ("In",) \
+                            and sub[2][0] == "const" and isinstance(sub[2][1], str):
+                        signs.add(sub[2][1])
     if func is None or func == "mixed":
         raise AnalysisError("map_constant: neither str(expr) nor repr(expr)")
     rule = {"func": func, "where": mem.owner.module.loc(fn),
